@@ -241,3 +241,28 @@ func VerifC04Required() {
 	}
 	vapi.Reach("c04-required")
 }
+
+// VerifC04UnreadExact: looking for an absent optional member leaves the following field intact,
+// for every pair of tags (in particular around the short/extended head boundary at 15).
+func VerifC04UnreadExact() {
+	t1, t2 := vapi.Byte("t1"), vapi.Byte("t2")
+	vapi.Assume(t1 < t2)
+	val := vapi.Byte("val")
+	vapi.Assume(val != 0)
+	var data []byte
+	if t2 < 15 {
+		data = []byte{t2<<4 | tyByte, val, 0xAB}
+	} else {
+		data = []byte{0xF0 | tyByte, t2, val, 0xAB}
+	}
+	r := codec.NewReader(data)
+	var a int8 = 55
+	vapi.Check(r.ReadInt8(&a, t1, false) == nil && a == 55, "absent optional member: no error, target untouched")
+	var b int8
+	vapi.Check(r.ReadInt8(&b, t2, true) == nil, "the following member is still readable")
+	vapi.Check(byte(b) == val, "the following member has its value")
+	var rest []byte
+	vapi.Check(r.ReadBytes(&rest, 1, true) == nil && rest[0] == 0xAB, "cursor exactly after the following member")
+	// the same when the optional lookup happens inside a nested struct that ends right away
+	vapi.Reach("c04-unread-exact")
+}
